@@ -169,6 +169,70 @@ let mexpr (x : sexp) : Expr.mexpr =
 let srange ((d0, l) : Expr.range) : sexp =
   L [bool_ d0; L (Stdlib.List.map (fun (c, b) -> L [scut c; bool_ b]) l)]
 
+(* ---- marker text parser with oracle tables ---- *)
+exception Miss of sexp
+let svop = function
+  | Expr.OEq -> A "eq" | Expr.OEqStar -> A "eqstar" | Expr.OExact -> A "exact" | Expr.ONe -> A "ne"
+  | Expr.ONeStar -> A "nestar" | Expr.OTilde -> A "tilde" | Expr.OLt -> A "lt" | Expr.OLe -> A "le"
+  | Expr.OGt -> A "gt" | Expr.OGe -> A "ge"
+let rec text_eq (a : coq_N list) (b : coq_N list) = match a, b with
+  | [], [] -> true | x :: a', y :: b' -> n_eq x y && text_eq a' b' | _ -> false
+let cls_table (l : sexp) : coq_N -> bool =
+  let l = nlist l in fun c -> Stdlib.List.exists (fun x -> n_eq x c) l
+let cls_known (l : sexp) (which : string) : coq_N -> unit =
+  let l = nlist l in fun c -> if c = N0 || Stdlib.List.exists (fun x -> n_eq x c) l then () else raise (Miss (L [A "cc"; an c]))
+let wkind_s = function
+  | MarkerParse.WDeprecated -> "deprecated" | MarkerParse.WExtraInvalid -> "extrainvalid" | MarkerParse.WLexicographic -> "lexicographic"
+  | MarkerParse.WMarkerMarker -> "markermarker" | MarkerParse.WPep440 -> "pep440" | MarkerParse.WStringString -> "stringstring"
+let ekind_s = function
+  | MarkerParse.EValueEnd -> A "value-end" | MarkerParse.EValueName -> A "value-name" | MarkerParse.EOperator -> A "operator"
+  | MarkerParse.ENotEnd -> A "not-end" | MarkerParse.ENotOther -> A "not-other"
+  | MarkerParse.ECharEnd c -> L [A "char-end"; an c] | MarkerParse.ECharOther c -> L [A "char-other"; an c]
+  | MarkerParse.EUnexpectedAndOr -> A "unexpected-andor" | MarkerParse.EUnexpectedEnd -> A "unexpected-end"
+let smexpr (e : Expr.mexpr) : sexp =
+  match e with
+  | Expr.EVersion (k, op, rel) -> L [A "ver"; an k; svop op; L (Stdlib.List.map an rel)]
+  | Expr.EVersionIn (k, vs, neg) -> L [A "verin"; an k; L (Stdlib.List.map (fun (e, (r, s)) -> L [A "v"; an e; L (Stdlib.List.map an r); L (Stdlib.List.map an s)]) vs); bool_ neg]
+  | Expr.EString (k, op, s) -> L [A "str"; an k; A (match op with Expr.SEq -> "eq" | Expr.SNe -> "ne" | Expr.SGt -> "gt" | Expr.SGe -> "ge" | Expr.SLt -> "lt" | Expr.SLe -> "le"); sstr s]
+  | Expr.EIn (k, s, neg) -> L [A "in"; an k; sstr s; bool_ neg]
+  | Expr.EContains (k, s, neg) -> L [A "contains"; an k; sstr s; bool_ neg]
+  | Expr.EExtra (neg, arb, s) -> L [A "extra"; bool_ neg; bool_ arb; sstr s]
+(* oracle tables live in the driver process and are filled by (tab ...) commands *)
+let t_cc : (string, bool * bool * bool) Stdlib.Hashtbl.t = Stdlib.Hashtbl.create 64
+let t_vparse : (string, sexp) Stdlib.Hashtbl.t = Stdlib.Hashtbl.create 64
+let t_specpat : (string, sexp) Stdlib.Hashtbl.t = Stdlib.Hashtbl.create 64
+let t_specver : (string, sexp) Stdlib.Hashtbl.t = Stdlib.Hashtbl.create 64
+let t_kw : (Cursor.text * MarkerParse.mvalue) list ref = ref []
+let t_keys : (coq_N * coq_N) ref = ref (N0, N0)
+let key_of_text (t : coq_N list) = Stdlib.String.concat "," (Stdlib.List.map string_of_n t)
+let tab (cmd : sexp list) : sexp =
+  (match cmd with
+   | [A "cc"; cp; w; a; n] -> Stdlib.Hashtbl.replace t_cc (string_of_n (num cp)) (to_bool w, to_bool a, to_bool n)
+   | [A "vparse"; t; r] -> Stdlib.Hashtbl.replace t_vparse (key_of_text (str t)) r
+   | [A "specpat"; A o; t; r] -> Stdlib.Hashtbl.replace t_specpat (o ^ ":" ^ key_of_text (str t)) r
+   | [A "specver"; A o; t; r] -> Stdlib.Hashtbl.replace t_specver (o ^ ":" ^ key_of_text (str t)) r
+   | [A "kw"; L l] -> t_kw := Stdlib.List.map (function
+       | L [t; A "extra"] -> (str t, MarkerParse.MVExtra)
+       | L [t; L [A "ver"; k]] -> (str t, MarkerParse.MVVersion (num k))
+       | L [t; L [A "str"; k]] -> (str t, MarkerParse.MVString (num k))
+       | _ -> failwith "driver: keyword table") l
+   | [A "keys"; pv; pfv] -> t_keys := (num pv, num pfv)
+   | [A "reset"] -> Stdlib.Hashtbl.reset t_vparse; Stdlib.Hashtbl.reset t_specpat; Stdlib.Hashtbl.reset t_specver
+   | _ -> failwith "driver: tab");
+  A "ok"
+let cc_get c = match Stdlib.Hashtbl.find_opt t_cc (string_of_n c) with Some v -> v | None -> raise (Miss (L [A "cc"; an c]))
+let o_ws c = let (w, _, _) = cc_get c in w
+let o_alpha c = let (_, a, _) = cc_get c in a
+let o_alnum c = let (_, _, n) = cc_get c in n
+let vop_name (o : Expr.vop) = match svop o with A a -> a | _ -> "?"
+let o_vparse t = match Stdlib.Hashtbl.find_opt t_vparse (key_of_text t) with
+  | Some (A "err") -> None | Some v -> Some (rawver v) | None -> raise (Miss (L [A "vparse"; sstr t]))
+let o_spec which tbl o t = match Stdlib.Hashtbl.find_opt tbl (vop_name o ^ ":" ^ key_of_text t) with
+  | Some (A "err") -> None
+  | Some (L [o2; rel]) -> Some (vop_ o2, nlist rel)
+  | Some _ -> failwith "driver: spec entry"
+  | None -> raise (Miss (L [A which; svop o; sstr t]))
+
 (* ---- dispatch ---- *)
 let run (cmd : sexp) : sexp =
   match cmd with
@@ -198,6 +262,20 @@ let run (cmd : sexp) : sexp =
   | L [A "cmp"; a; b] -> scmp (CmpConcrete.m_cmp (tree a) (tree b))
   | L [A "compl"; a] -> bool_ (Intern.m_compl (tree a))
   | L [A "nodes"; a] -> A (string_of_int (Stdlib.List.length (let rec f n = match n with Datatypes.O -> [] | Datatypes.S m -> () :: f m in f (Intern.m_nodes (tree a)))))
+  | L (A "tab" :: rest) -> tab rest
+  | L [A "pmarker"; t] ->
+      (try
+        let (pv, pfv) = !t_keys in
+        (match MarkerParse.parse_markers o_ws o_alpha o_alnum !t_kw o_vparse (o_spec "specpat" t_specpat) (o_spec "specver" t_specver) pv pfv (str t) with
+         | MarkerParse.POk (m, w) -> L [A "ok"; stree m; L (Stdlib.List.map (fun k -> A (wkind_s k)) w)]
+         | MarkerParse.PErr e -> L [A "err"; ekind_s e.MarkerParse.e_kind; an e.MarkerParse.e_start; an e.MarkerParse.e_len])
+      with Miss m -> L [A "oracle-miss"; m])
+  | L [A "pexpr"; t] ->
+      (try
+        (match MarkerParse.parse_expression o_ws o_alpha !t_kw o_vparse (o_spec "specpat" t_specpat) (o_spec "specver" t_specver) (str t) with
+         | MarkerParse.POk (e, w) -> L [A "ok"; (match e with Some e -> smexpr e | None -> A "none"); L (Stdlib.List.map (fun k -> A (wkind_s k)) w)]
+         | MarkerParse.PErr e -> L [A "err"; ekind_s e.MarkerParse.e_kind; an e.MarkerParse.e_start; an e.MarkerParse.e_len])
+      with Miss m -> L [A "oracle-miss"; m])
   | L [A "valcmp"; a; b] -> scmp (Concrete.m_val_cmp (value a) (value b))
   | L [A "varcmp"; a; b] -> scmp (Concrete.m_var_cmp (var_ a) (var_ b))
   | L [A "substring"; a; b] -> bool_ (Concrete.substring (str a) (str b))
@@ -213,13 +291,14 @@ let () =
      while true do
        let line = input_line stdin in
        if Stdlib.String.trim line <> "" then begin
+         Stdlib.Buffer.clear b;
          (try print b (run (parse line))
           with Failure m -> Stdlib.Buffer.add_string b ("(driver-failure " ^ Stdlib.String.escaped m ^ ")")
              | Not_found -> Stdlib.Buffer.add_string b "(driver-failure not-found)"
              | Stack_overflow -> Stdlib.Buffer.add_string b "(driver-failure stack-overflow)");
          Stdlib.Buffer.add_char b '\n';
-         if Stdlib.Buffer.length b > 60000 then (print_string (Stdlib.Buffer.contents b); Stdlib.Buffer.clear b)
+         print_string (Stdlib.Buffer.contents b);
+         flush stdout
        end
      done
-   with End_of_file -> ());
-  print_string (Stdlib.Buffer.contents b)
+   with End_of_file -> ())
